@@ -141,7 +141,7 @@ def lex_item(ctx, V, item):
 def simulate(ctx, V, script, f, init):
     """returns list of (kind, level_after, state) at each terminator, plus error string"""
     ev = ME.Evaluator(ctx, f.mod, f.cls)
-    state = ME.Obj(**copy.deepcopy(init))
+    state = ME.Obj(_cls=f.cls, **copy.deepcopy(init))
     out = []
     for item in script.split():
         final = item == ';!'
@@ -155,9 +155,9 @@ def simulate(ctx, V, script, f, init):
         if tok == ';':
             split = state.level <= 0
             out.append(('final' if final else 'inner', split, state.level,
-                        {k: v for k, v in state.__dict__.items() if k.startswith('_')}))
+                        {k: v for k, v in state.__dict__.items() if k.startswith('_') and k != '_cls'}))
             if split:
-                state = ME.Obj(**copy.deepcopy(init))
+                state = ME.Obj(_cls=f.cls, **copy.deepcopy(init))
     return out
 
 
